@@ -18,6 +18,7 @@ import numpy as np
 
 from vlib.gen.coupled import CoupledSystem, build_disciplines, describe_graph
 from vlib.gen.formulation_systems import (
+    HINGE_AT,
     QuadraticObjectiveTwin,
     Reference,
     convex_problems,
@@ -26,6 +27,7 @@ from vlib.gen.formulation_systems import (
     quadratic_objective_discipline,
     reads_a_coupling,
     reduced_quadratic,
+    system_model,
     solve_convex_qp,
     topological_order,
     weak_couplings,
@@ -346,7 +348,7 @@ def _functions(p: dict, model: CoupledSystem) -> list[tuple[str, list[str], dict
 
 
 def _case_pointwise(p, ctx):
-    model = CoupledSystem(p["system"])
+    model = system_model(p["system"])
     ref = Reference(model)
     info = describe_graph(model)
     couplings = ref.couplings
@@ -359,8 +361,9 @@ def _case_pointwise(p, ctx):
     sol2, tot2 = ref.coupled(x2)
     for sol in (sol1, sol2):
         for e in p["ds"]:
-            if e["name"] in sol and e["lo"] is not None:
-                inside = np.all(sol[e["name"]] >= np.array(e["lo"])) and np.all(sol[e["name"]] <= np.array(e["hi"]))
+            if e["name"] in sol:
+                inside = (e["lo"] is None or np.all(sol[e["name"]] >= np.array(e["lo"]))) and \
+                         (e["hi"] is None or np.all(sol[e["name"]] <= np.array(e["hi"])))
                 if not inside:
                     raise AssertionError("generator: coupled solution outside the coupling bounds")
     # the disciplines' own defaults differ from the design point: the formulations must take the design-space values
@@ -405,6 +408,18 @@ def _case_pointwise(p, ctx):
         ctx.cls("multi_output_constraint")
     if len(ref.used_x) < len(model.x_names):
         ctx.cls("design_input_read_by_nobody")
+    has_hinge = bool(getattr(model, "has_hinge", False))
+    if has_hinge:
+        ctx.cls("hinge_terms_with_sparse_jacobians")
+        changes = False
+        for d in p["system"]["discs"]:
+            for o in d["outputs"]:
+                for xn, block in o.get("hinge", {}).items():
+                    if not np.any(np.array(o["lin"][xn])):
+                        on = [bool(np.any(np.array(block) * (x[xn] > HINGE_AT)[None, :])) for x in (x1, x2)]
+                        changes = changes or on[0] != on[1]
+        if changes:  # a Jacobian block without stored entry at one of the two design points, populated at the other
+            ctx.cls("sparsity_pattern_changes_between_points")
     if any(e["lo"] is None for e in p["ds"]):
         ctx.cls("unbounded_variable")
 
@@ -464,9 +479,18 @@ def _case_pointwise(p, ctx):
     idf_names = check_names(ctx, ref, idf, user_names, "idf", "IDF")
     problem = idf.optimization_problem
     norm = {}
+    open_couplings = []  # normalised consistency constraint on a coupling without finite bounds: |ub - lb| is infinite
     for e in p["ds"]:
         if e["name"] in couplings:
-            norm[e["name"]] = np.abs(np.array(e["hi"]) - np.array(e["lo"])) if p["normalize"] else np.ones(sizes[e["name"]])
+            if not p["normalize"]:
+                norm[e["name"]] = np.ones(sizes[e["name"]])
+            elif e["lo"] is None or e["hi"] is None:
+                open_couplings.append(e["name"])
+            else:
+                norm[e["name"]] = np.abs(np.array(e["hi"]) - np.array(e["lo"]))
+    if open_couplings:
+        ctx.cls("class:idf_normalized_unbounded_coupling")
+    skip_open = bool(open_couplings) and ctx.known("idf_normalized_unbounded_coupling")
     producers = sorted({model.producer[n] for n in couplings})
     n_cons = len(producers)
     ctx.check(len(problem.constraints) == n_cons + len(p["constraints"]), "functions",
@@ -492,6 +516,8 @@ def _case_pointwise(p, ctx):
     if p["perturbed_first"]:
         points.reverse()
     points.append(("(x + dx, y*(x + dx))", x2, sol2, True))
+    if has_hinge:  # back to the first point: both directions of a change of sparsity pattern
+        points.append(("(x, y*(x)) again", x1, sol1, True))
     idf_at_solution = None
     kept = []
     for tag, x, targets, consistent in points:
@@ -517,11 +543,23 @@ def _case_pointwise(p, ctx):
                 worst = float(np.max(np.abs(val), initial=0.0))
                 ctx.check(worst <= 1e-10, "consistency_vanishes",
                           f"IDF consistency {'+'.join(outs)} at {tag} is {worst:.3e} > 1e-10", value=val)
+            cons_jacs.append(jac)
+            if any(o in open_couplings for o in outs):
+                # no finite |ub - lb|: the scale of the constraint is not documented, but it still has to EXPRESS the
+                # consistency: non-zero, with the sign of y_out - y_t, wherever the targets are inconsistent
+                if skip_open:
+                    continue
+                unit = {o: np.ones(sizes[o]) for o in outs}
+                residual = ref.consistency_value(outs, data, unit)
+                bad = [k for k in range(dim) if abs(residual[k]) >= 1e-6 and not (np.isfinite(val[k]) and val[k] * residual[k] > 0)]
+                ctx.check(not bad, "consistency_detects_inconsistency",
+                          f"IDF consistency {'+'.join(outs)} at {tag} (normalize_constraints=True, coupling without finite bounds) is "
+                          f"{val} although y_out - y_t = {residual}", value=val, residual=residual)
+                continue
             close(ctx, val, ref.consistency_value(outs, data, norm), 1e-11, "consistency_values",
                   f"IDF consistency {'+'.join(outs)} at {tag} (normalize_constraints={p['normalize']})")
             close(ctx, jac, ref.consistency_jacobian(outs, data, norm, idf_names), 1e-11, "consistency_jacobians",
                   f"IDF consistency {'+'.join(outs)} at {tag} (normalize_constraints={p['normalize']})", names=idf_names)
-            cons_jacs.append(jac)
         if consistent and x is x1:
             idf_at_solution = (got, cons_jacs)
 
@@ -539,7 +577,10 @@ def _case_pointwise(p, ctx):
         c_all = np.vstack(cons_jacs)
         ctx.check(c_all.shape[0] == len(y_cols), "functions", "IDF consistency constraints do not have one row per coupling component")
         c_y = c_all[:, y_cols]
-    for (label, outs, spec), j_idf, j_mdf in zip(fns, got, mdf_jac_at_x1 if mdf_with_jac else []):
+    rebuild = mdf_with_jac
+    if couplings and open_couplings and not (np.all(np.isfinite(c_y)) and np.linalg.cond(c_y) < 1e8):
+        rebuild = False  # (consistency Jacobians that are identically zero: reported by consistency_detects_inconsistency)
+    for (label, outs, spec), j_idf, j_mdf in zip(fns, got, mdf_jac_at_x1 if rebuild else []):
         expected = np.zeros_like(j_mdf)
         k = 0
         for n in mdf_names:
@@ -574,6 +615,40 @@ def _case_pointwise(p, ctx):
             close(ctx, np.asarray(current[n], dtype=float), sol1[n], 1e-9, "start_at_equilibrium", f"start_at_equilibrium: current value of {n}")
         ctx.cls("idf_start_at_equilibrium")
 
+    # ------------------------------------------------------------------ a DOE over IDF (mixed integer / float design space)
+    if integer_x:
+        integer_names = [e["name"] for e in p["ds"] if e.get("type") == "integer"]
+        partial = any(not set(integer_names) <= set(model.inputs_of[i]) for i in range(len(model.inputs_of)))
+        if partial:
+            ctx.cls("class:idf_doe_integer_variable_not_read_by_every_discipline")
+        if not (partial and ctx.known("idf_doe_integer_variable_not_read_by_every_discipline")):
+            from gemseo import create_scenario
+            from gemseo.core.mdo_functions.mdo_function import MDOFunction
+
+            doe = create_scenario(new_disciplines(), p["objective"], build_space(p["ds"], sizes, ds_values), formulation_name="IDF",
+                                  scenario_type="DOE", maximize_objective=p["maximize"], **formulation_settings("IDF", p))
+            for c in p["constraints"]:
+                doe.add_constraint(c["outputs"][0] if len(c["outputs"]) == 1 else list(c["outputs"]),
+                                   constraint_type=MDOFunction.ConstraintType(c["type"]), constraint_name=c["name"], value=c["value"],
+                                   positive=c["positive"])
+            doe_problem = doe.formulation.optimization_problem
+            doe_names = list(doe_problem.design_space.variable_names)
+            samples = [{**x1, **{n: sol1[n] for n in couplings}}, {**x2, **{n: sol2[n] for n in couplings}},
+                       {**x1, **{n: pert[n] for n in couplings}}]
+            samples = [d for k, d in enumerate(samples)
+                       if not any(np.array_equal(vector(doe_names, d), vector(doe_names, e)) for e in samples[:k])]
+            doe.execute(algo_name="CustomDOE", samples=np.vstack([vector(doe_names, d) for d in samples]))
+            database = doe_problem.database
+            ctx.check(len(database) == len(samples), "idf_doe", f"the database of the DOE over IDF holds {len(database)} points for {len(samples)} samples")
+            f_hist, x_hist = database.get_function_history(doe_problem.objective.name, with_x_vect=True)
+            ctx.check(len(f_hist) == len(samples), "idf_doe", "the DOE over IDF did not record the objective at every sample")
+            for k, d in enumerate(samples):
+                close(ctx, np.asarray(x_hist[k], dtype=float), vector(doe_names, d), 1e-14, "idf_doe", f"sample {k} of the DOE over IDF")
+                expected = ref.standard_form(ref.idf_value([p["objective"]], d), {"maximize": p["maximize"]})
+                close(ctx, np.atleast_1d(np.asarray(f_hist[k], dtype=float)).reshape(-1), expected, 1e-11, "idf_doe",
+                      f"objective recorded by the DOE over IDF at sample {k}")
+            ctx.cls("idf_doe_checked")
+
     # ------------------------------------------------------------------ DisciplinaryOpt on acyclic systems
     if acyclic:
         order = topological_order(model)
@@ -585,7 +660,7 @@ def _case_pointwise(p, ctx):
         problem = dopt.optimization_problem
         ctx.check(len(problem.constraints) == len(p["constraints"]), "functions", "DisciplinaryOpt: number of constraints")
         kept = []
-        for tag, x, sol, tot in (("x", x1, sol1, tot1), ("x + dx", x2, sol2, tot2)):
+        for tag, x, sol, tot in (("x", x1, sol1, tot1), ("x + dx", x2, sol2, tot2), ("x again", x1, sol1, tot1))[: 3 if has_hinge else 2]:
             vec = vector(names, x)
             if integer_x:
                 vec = dopt.design_space.get_current_value() if tag == "x" else vec.astype(int)
